@@ -86,8 +86,10 @@ class AllocatorAwarePointer
     }
 
     constexpr AllocatorAwarePointer(AllocatorAwarePointer&& other) noexcept
-        : impl_(other.release(), other.size(), other.get_allocator())
+        : impl_(other.get(), other.size(), other.get_allocator())
     {
+        other.get() = nullptr;
+        other.size() = 0;
     }
 
 #if __cpp_constexpr_dynamic_alloc
@@ -137,6 +139,7 @@ class AllocatorAwarePointer
             propagate_on_container_move_assignment(other);
             get() = other.release();
             size() = other.size();
+            other.size() = 0;
         }
         return *this;
     }
@@ -162,6 +165,7 @@ class AllocatorAwarePointer
         deallocate();
         get() = other.release();
         size() = other.size();
+        other.size() = 0;
     }
 
     constexpr void propagate_on_container_copy_assignment(const AllocatorAwarePointer& other) noexcept
